@@ -258,8 +258,9 @@ fn gen_rows(rng: &mut Rng, kind: &str, n: usize, d: usize) -> Mat {
             if b[j0] == 0.0 {
                 b[j0] = 1.0;
             }
-            // keep q^i inside the normal range of f32 as well (q^i >= 1e-30)
-            let imax = ((-30.0f64 * std::f64::consts::LN_10) / q.ln()).floor() as usize;
+            // q^i >= 1e-60 (squared distances stay far inside the f64 range; in f32 the tail collapses onto `a`,
+            // which only adds duplicate rows)
+            let imax = ((-60.0f64 * std::f64::consts::LN_10) / q.ln()).floor() as usize;
             let mut ids: Vec<usize> = (0..n).map(|i| i % (imax + 1)).collect();
             rng.shuffle(&mut ids);
             Mat::from_fn(n, d, |i, j| a[j] + q.powi(ids[i] as i32) * b[j])
@@ -858,7 +859,7 @@ fn fit_case_t<T: W>(c: &mut Case, kind: &str, scaled: bool) {
 }
 
 // ------------------------------------------------------------------------------------ assignment step
-const CKINDS: [&str; 9] = ["data-rows", "box", "far", "coincident", "partition-means", "symmetric-pairs", "one-side", "mixed", "jittered-rows"];
+const CKINDS: [&str; 10] = ["data-rows", "box", "far", "coincident", "partition-means", "symmetric-pairs", "one-side", "mixed", "jittered-rows", "tightest-rows"];
 
 fn gen_centroids(rng: &mut Rng, dat: &Data, k: usize, ckind: &str) -> Vec<Vec<f64>> {
     let (n, d) = (dat.x.r, dat.x.c);
@@ -872,6 +873,25 @@ fn gen_centroids(rng: &mut Rng, dat: &Data, k: usize, ckind: &str) -> Vec<Vec<f6
     };
     match ckind {
         "data-rows" => (0..k).map(|_| dat.x.row(rng.below(n))).collect(),
+        "tightest-rows" => {
+            // the k rows around the closest pair of distinct rows: the centroids compete at the finest scale of the data
+            // (in the deepest cell of a space-partitioning tree)
+            let m = n.min(200);
+            let mut best: Option<(usize, f64)> = None;
+            for a in 0..m {
+                for b in 0..a {
+                    let dd = csum((0..d).map(|j| (dat.x.at(a, j) - dat.x.at(b, j)).powi(2)));
+                    if dd > 0.0 && best.map_or(true, |q| dd < q.1) {
+                        best = Some((a, dd));
+                    }
+                }
+            }
+            let a0 = best.map(|q| q.0).unwrap_or(0);
+            let mut order: Vec<(f64, usize)> = (0..n).map(|i| (csum((0..d).map(|j| (dat.x.at(i, j) - dat.x.at(a0, j)).powi(2))), i)).collect();
+            order.sort_by(|p, q| p.partial_cmp(q).unwrap_or(std::cmp::Ordering::Equal));
+            order.dedup_by(|p, q| p.0 == q.0);
+            (0..k).map(|i| dat.x.row(order[i.min(order.len() - 1)].1)).collect()
+        }
         "far" => {
             let all = rng.bool(0.4);
             (0..k).map(|i| if all || i == 0 || rng.bool(0.3) { farp(rng) } else { boxp(rng) }).collect()
